@@ -127,7 +127,7 @@ pub const MAX_STR_BYTES: usize = 1 << 28;
 /// How the loop variables of a `While` are updated at the end of an iteration.
 #[derive(Debug, Clone, Copy, PartialEq, Eq)]
 pub enum LoopUpdate {
-  /// `v1 = e1; v2 = e2; ...` in order: what the TS and Wasm backends really emit.
+  /// `v1 = e1; v2 = e2; ...` in order (what the backends emitted before the lir_lowering fix).
   Sequential,
   /// all `loop_value`s are evaluated first, then assigned (parallel move).
   Simultaneous,
@@ -140,7 +140,9 @@ pub struct Options {
 
 impl Default for Options {
   fn default() -> Self {
-    Options { loop_update: LoopUpdate::Sequential }
+    // since the lir_lowering fix (repo commit 'update loop variables simultaneously ...') the
+    // backends implement the simultaneous reading of `While.loop_variables`
+    Options { loop_update: LoopUpdate::Simultaneous }
   }
 }
 
